@@ -28,10 +28,14 @@ func (d *Decoder) readType() (string, error) {
 		d.typList = append(d.typList, t)
 		return t, nil
 	}
-	i, err := d.readInt(_tagRead)
+	// the tag already read is the first octet of the int that indexes the type list
+	i, err := d.readInt(int32(tag))
 	if err != nil {
 		return "", newCodecError("readType", err)
 	}
 	index := int(i)
+	if index < 0 || index >= len(d.typList) {
+		return "", newCodecError("readType", "type ref index %d out of range, %d types read", index, len(d.typList))
+	}
 	return d.typList[index], nil
 }
